@@ -278,6 +278,24 @@ func init() {
 				entries = append(entries, entry{name, c04Effects(fn)})
 			}
 		}
+		// network/simpleHTTP.go: the interceptor bookkeeping of SimpleHTTPDef (a persistent-Stream client)
+		{
+			f, err := parser.ParseFile(fset, filepath.Join(repo, "network", "simpleHTTP.go"), nil, 0)
+			if err != nil {
+				return "", err
+			}
+			for _, d := range f.Decls {
+				fn, ok := d.(*ast.FuncDecl)
+				if !ok || fn.Body == nil || !strings.Contains(fn.Name.Name, "Interceptor") {
+					continue
+				}
+				name := "func." + fn.Name.Name
+				if fn.Recv != nil && len(fn.Recv.List) == 1 {
+					name = c04TypeName(fn.Recv.List[0].Type) + "." + fn.Name.Name
+				}
+				entries = append(entries, entry{"network." + name, c04Effects(fn)})
+			}
+		}
 		sort.Slice(entries, func(i, j int) bool { return entries[i].name < entries[j].name })
 		var b strings.Builder
 		b.WriteString("/-! Destructive-effect table of the Stream/Set/StreamSet methods and their fp.go helpers (extract/c04.go). -/\n")
